@@ -373,6 +373,8 @@ struct FnDirective {
     nocanary: bool,
     noisolation: bool,
     guards: Vec<String>,
+    logcalls_drop: bool,
+    loopawaits: Option<(usize, String, String)>,
     mutparams: Vec<String>,
     retain_captures: Vec<(String, String)>,
     retain_clauses: Vec<String>,
@@ -865,6 +867,8 @@ fn main() {
                 nocanary: opts.contains_key("nocanary"),
                 noisolation: opts.contains_key("noisolation"),
                 guards: opts.get("guards").map(|s| s.split_whitespace().map(|x| x.to_string()).collect()).unwrap_or_default(),
+                logcalls_drop: opts.get("logcalls").map_or(false, |v| v == "drop"),
+                loopawaits: opts.get("loopawaits").and_then(|v| { let p: Vec<&str> = v.splitn(3, ':').collect(); if p.len() == 3 { p[0].parse::<usize>().ok().map(|n| (n, p[1].to_string(), p[2].to_string())) } else { None } }),
                 retain_captures: opts.get("retain_captures").map(|s| s.split(';').filter_map(|x| x.split_once(':').map(|(a, b)| (a.trim().to_string(), b.trim().to_string()))).collect()).unwrap_or_default(),
                 slots: opts.get("slots").map(|s| s.split_whitespace().filter_map(|x| x.split_once(':').map(|(a, b)| (a.to_string(), b.to_string()))).collect()).unwrap_or_default(),
                 clears: opts.get("clears").map(|s| s.split_whitespace().filter_map(|x| { let v: Vec<&str> = x.splitn(3, ':').collect(); if v.len() == 3 { Some((v[0].to_string(), v[1].to_string(), v[2].to_string())) } else { None } }).collect()).unwrap_or_default(),
@@ -1078,6 +1082,8 @@ fn emit_fn(
     rw.log.extend(r32_log);
     rw.noop_methods = noop.clone();
     rw.guards = d.guards.iter().cloned().collect();
+    rw.allow_log_calls = d.logcalls_drop;
+    rw.loop_await_rule = d.loopawaits.as_ref().map(|(n, m, _)| (*n, m.clone()));
     rw.try_expand = method_maps.iter().any(|(k, _)| k == "flag:tryexpand");
     rw.retain_captures = d.retain_captures.clone();
     rw.fn_name = d.rename.clone().unwrap_or_else(|| d.name.clone());
@@ -1392,6 +1398,9 @@ fn emit_fn(
         } else if let Some(r) = t.strip_prefix("vx_guard_released!(") {
             let g = r.trim_end_matches(");");
             *l = format!("proof {{ vx_guard_{g} = false; }} /*vxguard*/");
+        } else if t.starts_with("vx_forbidden_await!(") {
+            let lab = d.loopawaits.as_ref().map(|x| x.2.clone()).unwrap_or_else(|| format!("{guard_prop}.forbidden_wait"));
+            *l = format!("assert(false); // [{lab}] /*vxguard*/");
         } else if let Some(r) = t.strip_prefix("vx_await_check!(") {
             let g = r.trim_end_matches(");");
             *l = format!("assert(!vx_guard_{g}); // [{guard_prop}.no_wait_while_holding_{g}] /*vxguard*/");
